@@ -15,6 +15,9 @@ def run_all(run):
         elif u.startswith('enum:'):
             import enum_unit
             enum_unit.run(run, u[5:])
+        elif u.startswith('audit:'):
+            import audit_unit
+            audit_unit.run(run, u[6:])
         elif u.startswith('native:'):
             import native_unit
             native_unit.run(run, u[7:])
